@@ -106,3 +106,166 @@ fn c10_literal_int_dispatch_bounded() {
     }
     kani::cover!(true);
 }
+
+/// float_exponent never aborts and yields sign * digits (clamped into i64), C08 / C10.
+/// BOUNDED: inputs of at most 22 bytes (`e`, sign, 20 digits: every digit string without leading zeros that fits u64).
+#[kani::proof]
+#[kani::unwind(23)]
+fn c08_float_exponent_total_bounded() {
+    let b: [u8; 22] = kani::any();
+    let n: usize = kani::any();
+    kani::assume(n <= 22);
+    let r = float_exponent(&b[..n]);
+    if let Ok((rest, Exponent(e))) = r {
+        assert!(n >= 2 && (b[0] == b'e' || b[0] == b'E'));
+        let negative = b[1] == b'-';
+        assert!(if negative { e <= 0 } else { e >= 0 });
+        assert!(rest.len() < n);
+    }
+    kani::cover!(r.is_ok());
+}
+
+// ---- literal_float glue: which digit strings / exponent reach calculate_float64_from_parts, and what becomes of its value --------
+// calculate_float64_from_parts itself is proved in the Verus unit lexer_float (it calls std's f64 parser, which CBMC cannot
+// get through); here it is replaced by a recorder that returns an arbitrary non-negative, non-NaN double.
+static mut REC_LEFT: [u64; 3] = [99; 3];
+static mut REC_LEFT_LEN: usize = 99;
+static mut REC_RIGHT: [u64; 3] = [99; 3];
+static mut REC_RIGHT_LEN: usize = 99;
+static mut REC_EXP: i64 = 0;
+static mut REC_VALUE: f64 = 0.0;
+static mut REC_CALLS: u32 = 0;
+
+fn recording_calculate(left: DigitSequence, right: DigitSequence, exponent: i64) -> f64 {
+    let v: f64 = kani::any();
+    kani::assume(v >= 0.0);
+    unsafe {
+        REC_CALLS += 1;
+        REC_LEFT_LEN = left.len();
+        REC_RIGHT_LEN = right.len();
+        let mut i = 0;
+        while i < 3 {
+            if i < left.len() { REC_LEFT[i] = left[i]; }
+            if i < right.len() { REC_RIGHT[i] = right[i]; }
+            i += 1;
+        }
+        REC_EXP = exponent;
+        REC_VALUE = v;
+    }
+    std::mem::forget(left);
+    std::mem::forget(right);
+    v
+}
+
+fn dig(c: u8) -> u64 { (c - b'0') as u64 }
+
+/// expected token for a value and a suffix byte
+fn check_float_token(tok: Token, v: f64, suffix: u8) {
+    match suffix {
+        b'h' | b'H' => assert!(tok == Token::LiteralFloat16(v as f32)),
+        b'f' | b'F' => assert!(tok == Token::LiteralFloat32(v as f32)),
+        b'l' | b'L' => assert!(tok == Token::LiteralFloat64(v)),
+        _ => assert!(tok == Token::LiteralFloat(v)),
+    }
+    std::mem::forget(tok);
+}
+
+fn any_digit() -> u8 {
+    let c: u8 = kani::any();
+    kani::assume(b'0' <= c && c <= b'9');
+    c
+}
+/// a float suffix or a byte that ends the token
+fn any_suffix_or_end() -> u8 {
+    let c: u8 = kani::any();
+    kani::assume(matches!(c, b'h' | b'H' | b'f' | b'F' | b'l' | b'L' | b';' | b' ' | b')' | b'+'));
+    c
+}
+fn is_suffix(c: u8) -> bool { matches!(c, b'h' | b'H' | b'f' | b'F' | b'l' | b'L') }
+
+/// `D . D D [suffix] ;`  -> whole part [D], fraction [D, D], exponent 0; value narrowed ONCE to f32 for h / f.
+/// BOUNDED: this token shape; the digits, the suffix and the returned value are symbolic.
+#[kani::proof]
+#[kani::unwind(6)]
+#[kani::stub(calculate_float64_from_parts, recording_calculate)]
+fn c10_literal_float_shape_fraction_bounded() {
+    let (d1, d2, d3, sfx) = (any_digit(), any_digit(), any_digit(), any_suffix_or_end());
+    let b = [d1, b'.', d2, d3, sfx, b';'];
+    match literal_float(&b) {
+        Ok((rest, tok)) => unsafe {
+            assert!(REC_CALLS == 1 && REC_LEFT_LEN == 1 && REC_RIGHT_LEN == 2 && REC_EXP == 0);
+            assert!(REC_LEFT[0] == dig(d1) && REC_RIGHT[0] == dig(d2) && REC_RIGHT[1] == dig(d3));
+            assert!(rest.len() == if is_suffix(sfx) { 1 } else { 2 });
+            check_float_token(tok, REC_VALUE, sfx);
+        },
+        Err(_) => assert!(false),
+    }
+    kani::cover!(true);
+}
+
+/// `D e - D [suffix] ;` and `D E + D`, `D e D`: whole part [D], no fraction, signed exponent.
+#[kani::proof]
+#[kani::unwind(6)]
+#[kani::stub(calculate_float64_from_parts, recording_calculate)]
+fn c10_literal_float_shape_exponent_bounded() {
+    let (d1, d2, sfx) = (any_digit(), any_digit(), any_suffix_or_end());
+    let e: u8 = kani::any();
+    kani::assume(e == b'e' || e == b'E');
+    let sign: u8 = kani::any();
+    kani::assume(sign == b'-' || sign == b'+');
+    let b = [d1, e, sign, d2, sfx, b';'];
+    match literal_float(&b) {
+        Ok((rest, tok)) => unsafe {
+            assert!(REC_CALLS == 1 && REC_LEFT_LEN == 1 && REC_RIGHT_LEN == 0);
+            assert!(REC_LEFT[0] == dig(d1));
+            assert!(REC_EXP == if sign == b'-' { -(dig(d2) as i64) } else { dig(d2) as i64 });
+            assert!(rest.len() == if is_suffix(sfx) { 1 } else { 2 });
+            check_float_token(tok, REC_VALUE, sfx);
+        },
+        Err(_) => assert!(false),
+    }
+    kani::cover!(true);
+}
+
+/// `. D e D ;` (no whole part, unsigned exponent) and `D . ;` (no fraction digits)
+#[kani::proof]
+#[kani::unwind(6)]
+#[kani::stub(calculate_float64_from_parts, recording_calculate)]
+fn c10_literal_float_shape_missing_parts_bounded() {
+    let (d1, d2) = (any_digit(), any_digit());
+    if kani::any() {
+        let b = [b'.', d1, b'e', d2, b';'];
+        match literal_float(&b) {
+            Ok((rest, tok)) => unsafe {
+                assert!(REC_CALLS == 1 && REC_LEFT_LEN == 0 && REC_RIGHT_LEN == 1 && REC_RIGHT[0] == dig(d1) && REC_EXP == dig(d2) as i64);
+                assert!(rest.len() == 1);
+                check_float_token(tok, REC_VALUE, b';');
+            },
+            Err(_) => assert!(false),
+        }
+    } else {
+        let b = [d1, b'.', b';'];
+        match literal_float(&b) {
+            Ok((rest, tok)) => unsafe {
+                assert!(REC_CALLS == 1 && REC_LEFT_LEN == 1 && REC_RIGHT_LEN == 0 && REC_LEFT[0] == dig(d1) && REC_EXP == 0);
+                assert!(rest.len() == 1);
+                check_float_token(tok, REC_VALUE, b';');
+            },
+            Err(_) => assert!(false),
+        }
+    }
+    kani::cover!(true);
+}
+
+/// a plain digit string is not a float literal (so integers keep lexing as integers)
+#[kani::proof]
+#[kani::unwind(6)]
+#[kani::stub(calculate_float64_from_parts, recording_calculate)]
+fn c10_literal_float_rejects_integers_bounded() {
+    let (d1, d2) = (any_digit(), any_digit());
+    let end: u8 = kani::any();
+    kani::assume(matches!(end, b';' | b' ' | b'u' | b'U' | b'l' | b'L' | b')' | b'x'));
+    let b = [d1, d2, end, b';'];
+    assert!(literal_float(&b).is_err());
+    kani::cover!(true);
+}
